@@ -402,7 +402,6 @@ func (l *InclusiveRanges) AppendUnique(start, end, step int) {
 
 	subStart := start
 	subEnd := start
-	subStep := step
 	last := start
 	pending := 0 // Track unique value count
 
@@ -450,14 +449,14 @@ func (l *InclusiveRanges) AppendUnique(start, end, step int) {
 
 		// Current value is already in range.
 		// Add previous values
-		l.Append(subStart, last, subStep)
+		l.Append(subStart, last, step)
 		subStart = subEnd + step
 		pending = 0
 	}
 
 	// Flush the remaining values
 	if pending > 0 {
-		l.Append(subStart, last, subStep)
+		l.Append(subStart, last, step)
 	}
 }
 
